@@ -378,8 +378,15 @@ def selftest(traces: list[dict[str, Any]], verdicts: dict[int, tuple[str, list[s
     t7 = cp(); t7["depth"] = max(1, len(deep["st"]) - 1) if len(deep["st"]) >= 2 else 1
     from harness.c09_ecu import run_scan
 
-    mc = dict(base["case"]); mc["mutant"] = "lazy"
-    t8 = run_scan(mc)
+    # the lazy-ECU mutant only shows when the scan enters the highest session: try such cases until one is rejected
+    lazy_cands = [t for i, t in enumerate(traces)
+                  if verdicts[i][0] == "ok" and t["end"] == "done" and max(t["sessions"]) in t["result"]][:8] or [base]
+    t8 = None
+    for cand in lazy_cands:
+        mc = dict(cand["case"]); mc["mutant"] = "lazy"
+        t8 = run_scan(mc)
+        if validate([t8])[0][0] not in ("ok", "outside-assumption"):
+            break
     got = validate([t1, t2, t3, t4, t5, t6, t7, t8])
     want = ["G1/reachable", "G1/reported", "G2/reported-stack", "G3/", "G4/does-not", "G2/session-reported-without", None, None]
     labels = [got[i][0] for i in range(8)]
@@ -483,8 +490,13 @@ def run(tier: str, seed: int) -> Report:
     rep.exhaustive = True
     rep.extra["exhaustive_over"] = ("TLC: every graph of the listed families x options (design layer); real code: "
                                     + info["iso3"] + "; the remaining families are samples")
-    # ---- 4. binding self-tests
-    selftest(traces, verdicts, rep)
+    # ---- 4. binding self-tests (a failing self-test must not mask violations already found on the tree under test)
+    try:
+        selftest(traces, verdicts, rep)
+    except Machinery as e:
+        if not rep.violations:
+            raise
+        rep.extra["binding_selftest"] = f"not conclusive on a violating tree: {e}"
     return rep
 
 
